@@ -136,6 +136,12 @@ theorem consumed_andThen (r : R) (f : Conn → R) (h1 : NoData r.2) (h2 : ∀ c,
   · exact h2 _
   · exact consumed_of_noData _ h1
 
+theorem noData_txStateRequestStart (uid : Nat) (c : Conn) : NoData (txStateRequestStart uid c).2 := by
+  unfold txStateRequestStart
+  apply noData_andThen
+  · exact noData_runCallback ..
+  · intro c1; exact NoData.ok
+
 theorem consumed_reqIdle (cfg : Cfg) (c : Conn) : Consumed (reqIdle cfg c) := by
   unfold reqIdle
   split
@@ -144,7 +150,12 @@ theorem consumed_reqIdle (cfg : Cfg) (c : Conn) : Consumed (reqIdle cfg c) := by
     simp only
     cases u with
     | none => exact consumed_of_noData _ NoData.error
-    | some uid => simp only; exact consumed_of_noData _ NoData.ok
+    | some uid =>
+      simp only
+      have k := noData_txStateRequestStart uid c1
+      rcases hy : txStateRequestStart uid c1 with ⟨c2, rc2⟩
+      rw [hy] at k
+      exact consumed_of_noData _ k
 
 theorem consumed_reqIgnore (c : Conn) : Consumed (reqIgnoreDataAfter09 c) := by
   unfold reqIgnoreDataAfter09
